@@ -156,8 +156,8 @@ func (r *Run) Count(name string) int64 {
 // Require is a vacuity guard: the enumeration must have produced at least min cases of the
 // class, otherwise the generator is broken (engine error, exit 2), never a verdict.
 func (r *Run) Require(name string, min int64) {
-	if r.Only != "" {
-		return
+	if r.Only != "" || r.Violations() > 0 {
+		return // with violations reported the enumeration's outcome classes are legitimately skewed
 	}
 	if r.Count(name) < min {
 		Engine("%s: vacuity guard: class %q seen %d times, need >= %d", r.Prop, name, r.Count(name), min)
